@@ -14,7 +14,8 @@ pub fn export_thir<'tcx>(cx: &Cx<'tcx>) -> J {
     for ldid in tcx.hir_body_owners() {
         let did = ldid.to_def_id();
         let kind = tcx.def_kind(did);
-        if !matches!(kind, DefKind::Fn | DefKind::AssocFn | DefKind::Closure) {
+        // const items too: their initialiser is what a `named_const` expression stands for (`const BATCH: usize = 2;`)
+        if !matches!(kind, DefKind::Fn | DefKind::AssocFn | DefKind::Closure | DefKind::Const { .. } | DefKind::AssocConst { .. }) {
             continue;
         }
         let Ok((steal, root)) = tcx.thir_body(ldid) else { continue };
